@@ -1242,6 +1242,11 @@ def stage_cassette_thread(chk, n):
 # stage: the handlers over WHOLE ScenarioFinished events (Model_C16 Part 6: written_ev, junit_run_ev)
 # ----------------------------------------------------------------------------------------
 LABELS_EV = LABELS + ["Error"]
+# charset classes of a recorded response (Model_C16 codec): since 22e8a9e1 (C16-F11 repaired) unknown and raising charsets are ordinary
+# inputs of the JUnit handler and are drawn often; badname = a charset name with a NUL character (ValueError, what is left: C16-F12)
+CODEC_DRAW = ["ok"] * 8 + ["unknown"] * 3 + ["raises"] * 2 + ["badname"]
+CODEC_COQ = {"ok": "CodecOk", "unknown": "CodecUnknown", "raises": "CodecRaises", "badname": "CodecBadName"}
+CODEC_ENCODING = {"ok": "utf-8", "unknown": "bogus", "raises": "undefined", "badname": "a\x00b"}
 PHASES_EV = {"probing": "PhProbing", "examples": "PhExamples", "coverage": "PhCoverage", "fuzzing": "PhFuzzing", "stateful": "PhStateful"}
 TCID = "X-Schemathesis-TestCaseId"
 
@@ -1262,7 +1267,7 @@ def rand_fhistory(rng):
             no += 1
             response = not (fault_last and k == n - 1) and rng.random() < (1.0 if fault_last else 0.85)
             checks = [rng.choice([None, None, rng.randrange(n_keys)]) for _ in range(rng.choice([0, 1, 2]))] if response else []
-            out.append({"no": no, "checks": checks, "response": response, "codec": rng.choice(["ok"] * 12 + ["unknown", "unknown", "raises"]) if response else "ok"})
+            out.append({"no": no, "checks": checks, "response": response, "codec": rng.choice(CODEC_DRAW) if response else "ok"})
         return out
 
     def scenario(**kw):
@@ -1317,7 +1322,7 @@ def c_fhistory(h):
             ev = e[1]
             cs = clist(["{| c_id := %d; c_checks := %s |}" % (c["no"], clist(["None" if k is None else f"(Some {k}%N)" for k in c["checks"]], "(option fkey)")) for c in ev["cases"]], "case_rec")
             ints = clist(["{| i_id := %d; i_userinfo := false; i_response := %s; i_codec := %s; i_cookie_values := [] |}" % (
-                c["no"], cbool(c["response"]), {"ok": "CodecOk", "unknown": "CodecUnknown", "raises": "CodecRaises"}[c["codec"]]) for c in ev["cases"]], "inter")
+                c["no"], cbool(c["response"]), CODEC_COQ[c["codec"]]) for c in ev["cases"]], "inter")
             evs.append("FScenario {| sf_phase := %s; sf_label := %s; sf_status := %s; sf_skip_reason := %s; sf_is_final := %s; sf_rlabel := %d; sf_cases := %s; sf_inters := %s |}" % (
                 PHASES_EV[ev["phase"]], "None" if ev["label"] is None else f"(Some {ev['label']}%N)", ev["status"], cbool(ev["reason"]), cbool(ev["final"]), ev["rlabel"], cs, ints))
         elif e[0] == "error":
@@ -1354,7 +1359,7 @@ def build_fevent(e):
         resp = None
         if c["response"]:
             resp = Response(status_code=500, headers={"content-type": ["text/plain"]}, content=b'x \xc3\xa9 <&> ]]>', request=SimpleNamespace(method="GET", url=uri, headers={}, body=None),  # type: ignore[arg-type]
-                            elapsed=0.1, verify=True, message="Internal Server Error", http_version="1.1", encoding={"ok": "utf-8", "unknown": "bogus", "raises": "undefined"}[c["codec"]])
+                            elapsed=0.1, verify=True, message="Internal Server Error", http_version="1.1", encoding=CODEC_ENCODING[c["codec"]])
         rec.interactions[cid] = Interaction(request=Request(method="GET", uri=uri, body=None, body_size=None, headers={TCID: [cid], "A": ["b"]}), response=resp)
         if resp is not None:
             rec.checks[cid] = []
@@ -1436,6 +1441,8 @@ def stage_event_space(chk, n):
     corpus = [json.loads(p.read_text()) for p in sorted((core.VERIF / "corpus" / "C16").glob("events_*.json"))]
     cases = [([tuple(e) for e in c["history"]], c.get("sanitize", False), c.get("preserve", False)) for c in corpus]
     cases += [(rand_fhistory(rng), rng.random() < 0.5, rng.random() < 0.4) for _ in range(n)]
+    # a NUL character in the charset with --report-preserve-bytes lands in encoding: '...' of the cassette (C16-F9's region, stage writers): text mode here
+    cases = [(h, san, pres and not any(c["codec"] == "badname" for e in h if e[0] == "scenario" for c in e[1]["cases"])) for h, san, pres in cases]
     exprs = []
     for h, san, pres in cases:
         ch = c_fhistory(h)
@@ -1443,7 +1450,8 @@ def stage_event_space(chk, n):
         exprs.append(f"(let h := {ch} in (written_ev ({conf % 'VCR'}) h, written_ev ({conf % 'HAR'}) h, delivered_ev h, junit_run_ev h, lost_by skip_final h))")
     model = core.coq_eval(IMPORTS, exprs)
     stats = {"histories": len(cases), "corpus": len(corpus), "scenario_events": 0, "final_events_with_interactions": 0, "events_without_label": 0,
-             "histories_the_skip_final_rule_would_cut": 0, "lost_inside_regions": {}, "aborted_runs_inside_regions": {}}
+             "histories_the_skip_final_rule_would_cut": 0, "lost_inside_regions": {}, "aborted_runs_inside_regions": {},
+             "responses_by_charset_class": {}, "failure_events_rendering_an_unknown_or_raising_charset": 0}
     # Coq prints left-nested pairs flat: ((a, b), c, d) comes back as (a, b, c, d)
     for (h, san, pres), (m_vcr_ids, m_vcr_end, m_har, m_deliv, m_junit, m_lost_sentinel) in zip(cases, model):
         m_vcr = (m_vcr_ids, m_vcr_end)
@@ -1458,17 +1466,24 @@ def stage_event_space(chk, n):
             chk.count(f"event:{ev['phase']}:{'final' if ev['final'] else 'not-final'}:{'no-label' if ev['label'] is None else 'label'}")
         impl = run_fhistory(h, san, pres)
         m_abort = m_junit[1] if m_junit[0] == "Aborted" else None
+        for c in (c for ev in scen for c in ev["cases"] if c["response"]):
+            stats["responses_by_charset_class"][c["codec"]] = stats["responses_by_charset_class"].get(c["codec"], 0) + 1
+        if any(ev["status"] == "StFailure" and any(c["response"] and c["codec"] in ("unknown", "raises") for c in ev["cases"]) for ev in scen) and impl["crash"] is None:
+            stats["failure_events_rendering_an_unknown_or_raising_charset"] += 1
         if impl["crash"] is not None or m_abort is not None:
-            # format_failures reads response.text and catches UnicodeDecodeError only (Model_C16 junit_step_ev, finding C16-F11)
+            # format_failures reads response.text inside try / except (UnicodeError, LookupError) since 22e8a9e1 (Model_C16 junit_step_ev_c,
+            # catches_unicode_and_lookup): an unknown charset or a raising codec must NOT leave the handler any more (C16-F11, fixed: a crash of that
+            # kind is a failing input outside every region); the ValueError for a charset name with a NUL character still does (C16-F12)
             kind = impl["crash"].split(":")[0] if impl["crash"] else None
-            text_abort = kind in ("LookupError", "UnicodeError") and impl.get("crash_in") == "JunitXMLHandler"
+            text_abort = kind in ("LookupError", "UnicodeError", "ValueError") and impl.get("crash_in") == "JunitXMLHandler"
             if text_abort != (m_abort is not None and m_abort[0] == "AbortText"):
                 chk.disagree("JunitXMLHandler aborts the run while rendering a failure (response.text raises) vs Model_C16.junit_run_ev", case, [impl["crash"], impl.get("crash_in")], m_abort)
             if impl["crash"] is not None:
-                undecodable = any(c["response"] and c["codec"] != "ok" for ev in scen for c in ev["cases"])
-                region = "junit_failure_text_undecodable" if text_abort and undecodable else None
+                bad_name = any(c["response"] and c["codec"] == "badname" for ev in scen for c in ev["cases"])
+                region = "junit_failure_text_bad_charset_name" if text_abort and kind == "ValueError" and "null character" in impl["crash"] and bad_name else None
                 stats["aborted_runs_inside_regions"][str(region)] = stats["aborted_runs_inside_regions"].get(str(region), 0) + 1
-                chk.fail(f"{impl.get('crash_in')} raised {impl['crash']}: the run aborts (Internal Error), junit.xml is not written", case, None, region=region)
+                charsets = sorted({CODEC_ENCODING[c["codec"]] for ev in scen for c in ev["cases"] if c["response"] and c["codec"] != "ok"})
+                chk.fail(f"{impl.get('crash_in')} raised {impl['crash']}: the run aborts (Internal Error), junit.xml is not written (response charsets in the history: {charsets})", case, None, region=region)
             continue
         delivered = [cid for cid, _ in impl["delivered"]]
         if delivered != [f"case{k}" for k in m_deliv]:
@@ -1488,7 +1503,7 @@ def stage_event_space(chk, n):
             ids = impl[fmt]
             if impl["end"][fmt] == "Closed" and ids != "unparseable" and [i for i, _ in ids] == delivered and all(done for _, done in ids):
                 continue
-            raising = fmt == "VCR" and not pres and any(c["response"] and c["codec"] == "raises" for ev in scen for c in ev["cases"])
+            raising = fmt == "VCR" and not pres and any(c["response"] and c["codec"] in ("raises", "badname") for ev in scen for c in ev["cases"])
             region = "codec_decode_raises" if raising and impl["end"][fmt] == "Died" else None
             stats["lost_inside_regions"][str(region)] = stats["lost_inside_regions"].get(str(region), 0) + 1
             in_file = {} if ids == "unparseable" else {i: sum(1 for j, _ in ids if j == i) for i, _ in ids}
@@ -1975,7 +1990,8 @@ def nasty_responder(rng_seed):
 
     def responder(item):
         payload = r.choice(NASTY_PAYLOADS)
-        ctype = r.choice(["application/json", "text/plain", "text/plain; charset=latin-1", "application/octet-stream", "text/html; charset=utf-8"])
+        # charset=bogus: since 22e8a9e1 a failed check on such a response is rendered as <BINARY> (C16-F11 repaired); before, the run aborted
+        ctype = r.choice(["application/json", "text/plain", "text/plain; charset=latin-1", "application/octet-stream", "text/html; charset=utf-8", "text/plain; charset=bogus"])
         headers = [("Content-Type", ctype), ("X-Latin", "caf\xe9 \xff \" \\ ' : #"), ("X-Multi", "a"), ("X-Multi", "b")]
         return r.choice([200, 200, 404, 500]), headers, payload
 
@@ -2269,6 +2285,10 @@ def _run_named(kind):
         return run_cli(cli_schema(TWO_GETS), lambda item: (200, [("Content-Type", "text/plain; charset=undefined")], b"hello"), FEW), False
     if kind == "failure_charset_bogus":
         return run_cli(cli_schema(TWO_GETS), lambda item: (500, [("Content-Type", "text/plain; charset=bogus")], b"h\xe9llo"), FEW), False
+    if kind == "failure_charset_undefined_preserve":
+        return run_cli(cli_schema(TWO_GETS), lambda item: (500, [("Content-Type", "text/plain; charset=undefined")], b"h\xe9llo"), FEW + ["--report-preserve-bytes"]), False
+    if kind == "failure_charset_nul":
+        return run_cli(cli_schema(TWO_GETS), lambda item: (500, [("Content-Type", "text/plain; charset=a\x00b")], b"h\xe9llo"), FEW), False
     if kind == "stateful_transport_error":
         out = None
         for seed in ("1", "2", "3", "4"):
@@ -2332,8 +2352,9 @@ def stage_cli(chk, quick):
             stats["cookie_headers_with_illegal_names"] = stats.get("cookie_headers_with_illegal_names", 0) + sum("/" in v.split("=")[0] or "(" in v for v in cookie_headers)
         if check_cli_artifacts(chk, name, out, preserve, sanitized=sanitized):
             stats["clean"] += 1
-    # the three repaired behaviours, as ordinary oracle runs (with their non-vacuity conditions)
-    for kind in ("junit_rediscovered", "har_userinfo", "unknown_charset", "odata_path_quote", "charset_quote_preserve", "argv_quote"):
+    # the repaired behaviours, as ordinary oracle runs (with their non-vacuity conditions)
+    for kind in ("junit_rediscovered", "har_userinfo", "unknown_charset", "odata_path_quote", "charset_quote_preserve", "argv_quote",
+                 "failure_charset_bogus", "failure_charset_undefined_preserve"):
         out, sanitized = run_named(kind)
         stats["runs"] += 1
         stats["exchanges"] += len(out["delivered"])
@@ -2348,7 +2369,10 @@ def stage_cli(chk, quick):
             msgs = [f.get("message") or "" for tc in root.iter("testcase") if tc.get("name") == "Stateful tests" for f in tc.findall("failure")]
             stats["rediscovered_failure_elements"] = len(msgs)
         elif not out["delivered"]:
-            chk.disagree("st run delivered no exchange to the reporters (the oracle has nothing to look at)", {"scenario": kind}, out["console"][-800:], None)
+            if out["exception"] is not None:   # aborted before the capture handler (the last one) saw an event: the abort itself is the failing input
+                chk.fail(f"st run [{kind}]: the run aborted with {out['exception']} (Internal Error), no report was written", {"scenario": kind, "argv": out["argv"][2:]}, out["console"][-600:], region=None)
+            else:
+                chk.disagree("st run delivered no exchange to the reporters (the oracle has nothing to look at)", {"scenario": kind}, out["console"][-800:], None)
             continue
         if kind == "har_userinfo" and not all("@" in inter.request.uri for _, inter in out["delivered"]):
             chk.disagree("the userinfo run recorded URLs without userinfo (nothing to look at)", {"scenario": kind}, [i.request.uri for _, i in out["delivered"]][:3], None)
@@ -2356,6 +2380,20 @@ def stage_cli(chk, quick):
             chk.disagree("the bogus-charset run recorded no response with encoding bogus (nothing to look at)", {"scenario": kind}, None, None)
         if kind == "odata_path_quote" and not all("('" in inter.request.uri for _, inter in out["delivered"]):
             chk.disagree("the OData-path run recorded URLs without a single quote (nothing to look at)", {"scenario": kind}, [i.request.uri for _, i in out["delivered"]][:3], None)
+        if kind.startswith("failure_charset_"):
+            # 22e8a9e1 (C16-F11): every answer is a 500 with a charset Python cannot decode with; each operation fails, its failure is rendered for junit.xml
+            want = "bogus" if kind == "failure_charset_bogus" else "undefined"
+            if not all(inter.response is not None and inter.response.encoding == want and inter.response.status_code == 500 for _, inter in out["delivered"]):
+                chk.disagree(f"the failing {want}-charset run recorded a response without encoding {want} / status 500 (nothing to look at)", {"scenario": kind}, None, None)
+            if not [1 for _, status in out["scenarios"] if status == "FAILURE"]:
+                chk.disagree(f"the failing {want}-charset run produced no FAILURE scenario (nothing is rendered for junit.xml)", {"scenario": kind}, out["scenarios"][-4:], None)
+            try:
+                texts = [(f.get("message") or "") + (f.text or "") for f in ET.fromstring(out["junit.xml"] or "<x/>").iter("failure")]
+            except ET.ParseError:
+                texts = []
+            stats["failure_elements_with_undecodable_text"] = stats.get("failure_elements_with_undecodable_text", 0) + sum("<BINARY>" in t for t in texts)
+            if out["exception"] is None and not any("<BINARY>" in t for t in texts):
+                chk.fail(f"st run [{kind}]: no failure element of junit.xml shows the undecodable payload as <BINARY>", {"scenario": kind}, texts[:2], region=None)
         if kind == "charset_quote_preserve" and not all(inter.response is not None and "'" in (inter.response.encoding or "") for _, inter in out["delivered"]):
             chk.disagree("the quoted-charset run recorded no response encoding with a single quote (nothing to look at)", {"scenario": kind}, None, None)
         if check_cli_artifacts(chk, kind, out, kind.endswith("_preserve"), sanitized=sanitized):
@@ -2564,7 +2602,7 @@ def stage_process_exit(chk, quick):
 # ----------------------------------------------------------------------------------------
 # listed findings: canonical witnesses replayed on the implementation
 # ----------------------------------------------------------------------------------------
-def witness_fails(w) -> bool:
+def witness_fails(w, fixed=False) -> bool:
     kind = w["kind"]
     if kind == "cli":
         return cli_witness(w["scenario"])[0]
@@ -2580,8 +2618,11 @@ def witness_fails(w) -> bool:
         entries = y[1].get("http_interactions") or []
         return [e.get("id") for e in entries] != ids or bool(compare_vcr_entry(entries[0], it, w.get("preserve", False)))
     if kind == "cli_abort":
+        # the run is aborted by one of the listed exception classes while the JUnit report is produced.  For a finding that is fixed the witness
+        # run must in addition satisfy the whole report oracle (exit code, junit.xml with its failure elements, complete cassettes)
         out, _ = run_named(w["scenario"])
-        return out["exception"] is not None and out["exception"].split(":")[0] in w["exceptions"] and "junitxml.py" in out["console"] and "Internal Error" in out["console"]
+        aborted = out["exception"] is not None and out["exception"].split(":")[0] in w["exceptions"] and "junitxml.py" in out["console"] and "Internal Error" in out["console"]
+        return aborted or (fixed and cli_witness(w["scenario"])[0])
     if kind == "cli_child":
         out = get_child_run(w["report"])
         return child_conclusive(out) and bool(child_problems(out))
@@ -2610,7 +2651,9 @@ def run(chk: core.Check):
         "failure identity is (class, operation, _unique_key) as Failure.__eq__ defines it; case ids are unique within a run",
         "engine-emitted histories: any sequence of ScenarioFinished (any phase, event label, status, skip_reason, is_final, any recorder), NonFatalError and EngineFinished events; "
         "delivered to the reporters = the interactions of the recorder of every ScenarioFinished event handed to handle_event (a final replay is real traffic with fresh case ids)",
-        "response.text raises (not UnicodeDecodeError) exactly for a non-empty payload whose charset Python does not know or whose codec raises (Model_C16 text_raises; region junit_failure_text_undecodable)",
+        "response.text raises for a non-empty payload LookupError (charset Python does not know), a UnicodeError (codec that raises; UnicodeDecodeError for undecodable bytes) or "
+        "ValueError (charset name with a NUL character) and nothing else (Model_C16 text_exn_of; 60000 names probed while following 22e8a9e1); format_failures catches the first two "
+        "families (catches_unicode_and_lookup), region junit_failure_text_bad_charset_name = the third",
         "process exit (Model_C16 Part 5, exit_step): sys.exit unwinds the Click context, which closes the click.File handles it created (measured per run "
         "on click.Context.close), then threading._shutdown joins every non-daemon thread without a timeout and daemon threads never run again; the writer "
         "takes one queue item at a time and may be arbitrarily slow (validated by real child-process runs whose report files are re-read after the exit)",
@@ -2624,11 +2667,17 @@ def run(chk: core.Check):
         "the join returning, timing out at once or anywhere in the backlog, blocked then timing out, no exit) x report file owned by Click or not; real child "
         "processes running st run with 12 exchanges and report files on a slow device (--report-dir and --report-*-path); real st run invocations against "
         "a loopback API answering with nasty payloads; whole ScenarioFinished events (5 phases x event label none / recorder label / another label x 5 statuses x skip_reason x "
-        "is_final x recorder with 0-3 cases, responses, network errors, unknown and raising charsets) in four shapes (independent attributes, a stateful run whose failing "
+        "is_final x recorder with 0-3 cases, responses, network errors, unknown / raising charsets (5 of 14 responses) and charset names with a NUL character (1 of 14)) in four shapes (independent attributes, a stateful run whose failing "
         "sequence is replayed as a final scenario with fresh case ids, unit phases with the final empty ERROR event, everything final) through ExecutionContext + the real "
         "CassetteWriter (VCR, HAR) + JunitXMLHandler; a real stateful st run whose linked step meets a transport error (final replay). non-trivial = needs escaping / has a payload or a fault / has a FAILURE event; distinct by canonical JSON"
     )
     chk.proofs(["Common", "C16"])
+
+    # the witnesses of the repaired findings first (their real runs are cached and used again by stage_cli): the return of a repaired defect
+    # is then the first failing input of the report ("fixed finding ... is back")
+    for f in chk.findings:
+        if f.get("status") == "fixed":
+            chk.known(f, witness_fails(f["witness"], fixed=True))
 
     stage_tables(chk)
     stage_escaper(chk, 1200 if quick else 12000)
@@ -2643,7 +2692,8 @@ def run(chk: core.Check):
     stage_process_exit(chk, quick)
 
     for f in chk.findings:
-        chk.known(f, witness_fails(f["witness"]))
+        if f.get("status") != "fixed":
+            chk.known(f, witness_fails(f["witness"]))
 
 
 def replay(payload) -> int:
